@@ -1,4 +1,5 @@
 from rules import shared as S
+from rules import late as L
 
 DOC = {
     'explanation': 'C02 structural clauses: atomic registration, register-before-root, free horizon flow, who-may-free tables, cache coherence on free, guard ownership of page-holding types',
@@ -36,3 +37,4 @@ def rules(ctx):
     S.snapshot_atomic_rules(ctx)
     S.round4_residue_rules(ctx)
     S.round5_rules(ctx)
+    L.get_mut_cow_rules(ctx)
